@@ -110,7 +110,12 @@ def extra_cases(seed):
     tail = geom.wire([R, 0., 0.], [R + 0.05 * lam, 0.04 * lam, 0.01 * lam], 3, r)
     for name, objs in (('D-loop', [w, h1]), ('D-loop-rev', [wr, h1]), ('D-loop-arc-first', [h1, w]), ('D-loop-arc-rev', [w, h1r]),
                        ('two-half-arcs', [h1, h2]), ('two-half-arcs-rev', [h1, h2r]), ('two-half-arcs-rev1', [h1r, h2]),
-                       ('closed-arc-tail', [loop, tail]), ('arc-two-wires', [h1, tail, geom.wire([-R, 0., 0.], [-R - 0.04 * lam, 0.03 * lam, -0.02 * lam], 2, r)])):
+                       ('closed-arc-tail', [loop, tail]), ('arc-two-wires', [h1, tail, geom.wire([-R, 0., 0.], [-R - 0.04 * lam, 0.03 * lam, -0.02 * lam], 2, r)]),
+                       # arcs described clockwise (first angle larger) and counter-clockwise with a wire on ONE end only
+                       ('cw-arc-tail-at-end2', [h1r, tail]), ('tail+cw-arc', [tail, h1r]), ('ccw-arc-tail-at-end1', [h1, tail]),
+                       ('cw-arc-tail-at-end1', [dict(kind='arc', n=5, radius=R, ang1=120., ang2=0., r=r), tail]),
+                       ('cw-arc-120-30-tail', [dict(kind='arc', n=6, radius=R, ang1=120., ang2=30., r=r),
+                                               geom.wire([R * np.cos(np.radians(120.)), 0., R * np.sin(np.radians(120.))], [2 * R * np.cos(np.radians(120.)), 0.01 * lam, 2 * R * np.sin(np.radians(120.))], 5, r)])):
         yield dict(extra=name, env='free', f=f, objs=objs)
         for vs in (1e-7, 7e-6, 1e6):         # the report carries the currents of microvolt and megavolt sources just the same
             yield dict(extra='%s x%g V' % (name, vs), env='free', f=f, objs=objs, vscale=vs)
@@ -162,6 +167,20 @@ def evaluate_extra(c):
         ends.append((gi, 0, np.array(s0.p1, float), np.array(s0.p2, float)))
         ends.append((gi, 1, np.array(s1.p2, float), np.array(s1.p1, float)))
     viol, printed = [], {}
+    # "end 1" / "end 2" of the report are the ends of the DESCRIPTION: first / second point of a wire, first / second angle of an arc
+    from mcx.ref import segref
+    for gi, w in enumerate(c['objs']):
+        k_ = w.get('kind', 'wire')
+        if k_ == 'wire':
+            d1, d2 = np.array(w['p1'], float), np.array(w['p2'], float)
+        elif k_ == 'arc':
+            ae = segref.arc_ends(w['n'], w['radius'], w['ang1'], w['ang2'])
+            d1, d2 = ae[0], ae[-1]
+        else:
+            continue
+        for en, dpt in ((0, d1), (1, d2)):
+            if np.linalg.norm(ends[2 * gi + en][2] - dpt) > 1e-3 * np.linalg.norm(ends[2 * gi + en][2] - ends[2 * gi + en][3]):
+                viol.append(('END-PLACE', '%s: end %d of object %d lies at %s, described at %s' % (c['extra'], en + 1, gi + 1, np.round(ends[2 * gi + en][2], 5), np.round(dpt, 5))))
     lastonly = set()
     groups = []
     used = set()
